@@ -40,7 +40,10 @@ type vfStubNsqd struct {
 }
 
 func vfNewStubNsqd() *vfStubNsqd {
-	ln, err := net.Listen("tcp", "127.0.0.1:0")
+	// a loopback address private to this process (vfLoopback), not 127.0.0.1: the stub is taken Down and comes Up again on
+	// the same port while the tool under test keeps reconnecting — on 127.0.0.1 the kernel could hand the port to a daemon
+	// of another check running in parallel (the tool would then publish into a foreign nsqd) or to anybody's source port
+	ln, err := vfListen()
 	if err != nil {
 		panic(err)
 	}
@@ -86,6 +89,8 @@ func (s *vfStubNsqd) Up() {
 	// process's outgoing connection can get it as its ephemeral source port, and Listen then fails with EADDRINUSE for
 	// as long as that connection lives (seen once in a thorough sweep: `listen tcp 127.0.0.1:37333: bind: address
 	// already in use` = a false alarm on the unchanged tree). Such connections are short-lived: wait for the port.
+	// Since the stub listens on a process-private IP (vfNewStubNsqd) that cannot happen any more — outgoing connections
+	// get 127.0.0.1 as their source address — and nobody else binds this IP; the retry stays as a cheap safety net.
 	var ln net.Listener
 	var err error
 	for i := 0; i < 1200; i++ {
